@@ -198,6 +198,7 @@ type lineResult struct {
 	nontrivial bool
 	skipped    string
 	extra      map[string]int
+	samples    []any
 }
 
 func (r *Runner) replayLine(l *Line) lineResult {
@@ -237,6 +238,11 @@ func (r *Runner) account(l *Line, res lineResult) {
 		if _, dup := r.seen[key]; !dup {
 			r.seen[key] = struct{}{}
 			r.sum.Distinct++
+		}
+	}
+	for _, x := range res.samples {
+		if len(r.sum.Samples) < 4 {
+			r.sum.Samples = append(r.sum.Samples, x)
 		}
 	}
 	if len(r.sum.Samples) < 3 && res.nontrivial && (len(l.Hist) >= 2 || l.Fam == "ops") {
